@@ -76,10 +76,11 @@ func (d *EMAThroughputSampler) GetSampleRate(trace *types.Trace) (rate uint, kee
 		d.Logger.Debug().Logf("trace key hit max length of %d, truncating", maxKeyLength)
 	}
 	count := int(trace.DescendantCount())
-	rate = uint(d.dynsampler.GetSampleRateMulti(key, count))
-	if rate < 1 { // protect against dynsampler being broken even though it shouldn't be
-		rate = 1
+	answer := d.dynsampler.GetSampleRateMulti(key, count)
+	if answer < 1 { // protect against dynsampler being broken even though it shouldn't be
+		answer = 1 // compared as an int: a negative answer converted to uint is huge, not < 1
 	}
+	rate = uint(answer)
 	shouldKeep := rand.Intn(int(rate)) == 0
 	d.Logger.Debug().WithFields(map[string]interface{}{
 		"sample_key":  key,
